@@ -112,6 +112,9 @@ proofs/LruProofs.vos proofs/LruProofs.vok proofs/LruProofs.required_vos: proofs/
 proofs/ServerProofs.vo proofs/ServerProofs.glob proofs/ServerProofs.v.beautified proofs/ServerProofs.required_vo: proofs/ServerProofs.v gen/Params.vo model/Bytes.vo model/Crc32c.vo model/Sha1.vo model/Id.vo model/Node.vo model/BSearch.vo model/Closest.vo model/RTable.vo model/Lru.vo model/Tokens.vo model/Server.vo proofs/ClosestProofs.vo proofs/RTableProofs.vo proofs/LruProofs.vo
 proofs/ServerProofs.vio: proofs/ServerProofs.v gen/Params.vio model/Bytes.vio model/Crc32c.vio model/Sha1.vio model/Id.vio model/Node.vio model/BSearch.vio model/Closest.vio model/RTable.vio model/Lru.vio model/Tokens.vio model/Server.vio proofs/ClosestProofs.vio proofs/RTableProofs.vio proofs/LruProofs.vio
 proofs/ServerProofs.vos proofs/ServerProofs.vok proofs/ServerProofs.required_vos: proofs/ServerProofs.v gen/Params.vos model/Bytes.vos model/Crc32c.vos model/Sha1.vos model/Id.vos model/Node.vos model/BSearch.vos model/Closest.vos model/RTable.vos model/Lru.vos model/Tokens.vos model/Server.vos proofs/ClosestProofs.vos proofs/RTableProofs.vos proofs/LruProofs.vos
+proofs/ServerIndep.vo proofs/ServerIndep.glob proofs/ServerIndep.v.beautified proofs/ServerIndep.required_vo: proofs/ServerIndep.v gen/Params.vo model/Bytes.vo model/Crc32c.vo model/Sha1.vo model/Id.vo model/Node.vo model/BSearch.vo model/Closest.vo model/RTable.vo model/Lru.vo model/Tokens.vo model/Server.vo
+proofs/ServerIndep.vio: proofs/ServerIndep.v gen/Params.vio model/Bytes.vio model/Crc32c.vio model/Sha1.vio model/Id.vio model/Node.vio model/BSearch.vio model/Closest.vio model/RTable.vio model/Lru.vio model/Tokens.vio model/Server.vio
+proofs/ServerIndep.vos proofs/ServerIndep.vok proofs/ServerIndep.required_vos: proofs/ServerIndep.v gen/Params.vos model/Bytes.vos model/Crc32c.vos model/Sha1.vos model/Id.vos model/Node.vos model/BSearch.vos model/Closest.vos model/RTable.vos model/Lru.vos model/Tokens.vos model/Server.vos
 proofs/TokenProofs.vo proofs/TokenProofs.glob proofs/TokenProofs.v.beautified proofs/TokenProofs.required_vo: proofs/TokenProofs.v gen/Params.vo model/Bytes.vo model/Crc32c.vo model/Id.vo model/Node.vo model/Tokens.vo proofs/Sweep.vo proofs/IdProofs.vo proofs/ClosestProofs.vo proofs/RTableProofs.vo
 proofs/TokenProofs.vio: proofs/TokenProofs.v gen/Params.vio model/Bytes.vio model/Crc32c.vio model/Id.vio model/Node.vio model/Tokens.vio proofs/Sweep.vio proofs/IdProofs.vio proofs/ClosestProofs.vio proofs/RTableProofs.vio
 proofs/TokenProofs.vos proofs/TokenProofs.vok proofs/TokenProofs.required_vos: proofs/TokenProofs.v gen/Params.vos model/Bytes.vos model/Crc32c.vos model/Id.vos model/Node.vos model/Tokens.vos proofs/Sweep.vos proofs/IdProofs.vos proofs/ClosestProofs.vos proofs/RTableProofs.vos
@@ -121,9 +124,9 @@ properties/C03.vos properties/C03.vok properties/C03.required_vos: properties/C0
 properties/C04.vo properties/C04.glob properties/C04.v.beautified properties/C04.required_vo: properties/C04.v gen/Params.vo model/Bytes.vo model/Crc32c.vo model/Sha1.vo model/Id.vo model/Node.vo model/BSearch.vo model/Closest.vo model/RTable.vo model/Lru.vo model/Tokens.vo model/Server.vo proofs/ServerProofs.vo
 properties/C04.vio: properties/C04.v gen/Params.vio model/Bytes.vio model/Crc32c.vio model/Sha1.vio model/Id.vio model/Node.vio model/BSearch.vio model/Closest.vio model/RTable.vio model/Lru.vio model/Tokens.vio model/Server.vio proofs/ServerProofs.vio
 properties/C04.vos properties/C04.vok properties/C04.required_vos: properties/C04.v gen/Params.vos model/Bytes.vos model/Crc32c.vos model/Sha1.vos model/Id.vos model/Node.vos model/BSearch.vos model/Closest.vos model/RTable.vos model/Lru.vos model/Tokens.vos model/Server.vos proofs/ServerProofs.vos
-properties/C15.vo properties/C15.glob properties/C15.v.beautified properties/C15.required_vo: properties/C15.v gen/Params.vo model/Bytes.vo model/Crc32c.vo model/Sha1.vo model/Id.vo model/Node.vo model/BSearch.vo model/Closest.vo model/RTable.vo model/Lru.vo model/Tokens.vo model/Server.vo proofs/ServerProofs.vo proofs/TokenProofs.vo proofs/TokenForge.vo
-properties/C15.vio: properties/C15.v gen/Params.vio model/Bytes.vio model/Crc32c.vio model/Sha1.vio model/Id.vio model/Node.vio model/BSearch.vio model/Closest.vio model/RTable.vio model/Lru.vio model/Tokens.vio model/Server.vio proofs/ServerProofs.vio proofs/TokenProofs.vio proofs/TokenForge.vio
-properties/C15.vos properties/C15.vok properties/C15.required_vos: properties/C15.v gen/Params.vos model/Bytes.vos model/Crc32c.vos model/Sha1.vos model/Id.vos model/Node.vos model/BSearch.vos model/Closest.vos model/RTable.vos model/Lru.vos model/Tokens.vos model/Server.vos proofs/ServerProofs.vos proofs/TokenProofs.vos proofs/TokenForge.vos
+properties/C15.vo properties/C15.glob properties/C15.v.beautified properties/C15.required_vo: properties/C15.v gen/Params.vo model/Bytes.vo model/Crc32c.vo model/Sha1.vo model/Id.vo model/Node.vo model/BSearch.vo model/Closest.vo model/RTable.vo model/Lru.vo model/Tokens.vo model/Server.vo proofs/ServerProofs.vo proofs/TokenProofs.vo proofs/TokenForge.vo proofs/ServerIndep.vo
+properties/C15.vio: properties/C15.v gen/Params.vio model/Bytes.vio model/Crc32c.vio model/Sha1.vio model/Id.vio model/Node.vio model/BSearch.vio model/Closest.vio model/RTable.vio model/Lru.vio model/Tokens.vio model/Server.vio proofs/ServerProofs.vio proofs/TokenProofs.vio proofs/TokenForge.vio proofs/ServerIndep.vio
+properties/C15.vos properties/C15.vok properties/C15.required_vos: properties/C15.v gen/Params.vos model/Bytes.vos model/Crc32c.vos model/Sha1.vos model/Id.vos model/Node.vos model/BSearch.vos model/Closest.vos model/RTable.vos model/Lru.vos model/Tokens.vos model/Server.vos proofs/ServerProofs.vos proofs/TokenProofs.vos proofs/TokenForge.vos proofs/ServerIndep.vos
 proofs/BencodeProofs.vo proofs/BencodeProofs.glob proofs/BencodeProofs.v.beautified proofs/BencodeProofs.required_vo: proofs/BencodeProofs.v model/Bytes.vo model/Server.vo model/Bencode.vo
 proofs/BencodeProofs.vio: proofs/BencodeProofs.v model/Bytes.vio model/Server.vio model/Bencode.vio
 proofs/BencodeProofs.vos proofs/BencodeProofs.vok proofs/BencodeProofs.required_vos: proofs/BencodeProofs.v model/Bytes.vos model/Server.vos model/Bencode.vos
